@@ -68,7 +68,7 @@ def _raw_counts(path):
 
 
 def _row_of(r):
-    st = r.state
+    st = r.state if isinstance(r.state, str) else r.to_string(r.state)   # the stored word; views may hand back the enum
     return {'vector': list(r.vector), 'costs': list(r.costs), 'costs_signed': list(r.costs_signed),
             'state': st, 'population_id': r.population_id, 'custom': r.custom}
 
@@ -347,6 +347,19 @@ def _run_batch(D):
         for b in range(nbatches):
             nd = 2 + D.dec('cfg', ('ndes', b), 9)
             vecs = [W.gen_vector(w, D, 'work', ('v', b, i)) for i in range(nd)]
+            if use_db and prev and ev_kind == 'simple' and D.dec('cfg', ('reload', b), 3) == 1:
+                # a later session continues on the same file (parallel and serial twin alike): the designs read back
+                # evaluated are evaluated designs, re-submitting them must not reach the objective in either mode
+                lp = sorted(W.reopen_session(w, db), key=lambda i: i.id)
+                lt = sorted(W.reopen_session(twin, dbt), key=lambda i: i.id)
+                if len(lp) == len(lt) and all(list(a.vector) == list(c.vector) for a, c in zip(lp, lt)):
+                    prev, prevt = lp, lt
+                    ctx.probe('reloaded_session')
+                else:
+                    prev, prevt = [], []
+                alg = W.dummy_algorithm(w, workers=workers, evaluator=ev_kind)
+                algt = W.dummy_algorithm(twin, workers=1, evaluator=ev_kind)
+                sim.ev('reload', b, len(prev))
             batch = [Individual(v) for v in vecs]
             reuse = 0
             if prev and D.dec('cfg', ('reuse', b), 2):
@@ -414,7 +427,7 @@ def _compare(ctx, w, twin, batch, batcht, fresh, ncalls0, ev_kind, b):
         for j, (x, y) in enumerate(zip(fam_p, fam_t)):
             known.add(id(x))
             ctx.check()
-            if x.state != y.state or x.state != x.State.EVALUATED:
+            if x.state != y.state or (x.state != x.State.EVALUATED and not (x.state == 'evaluated' and not is_fresh)):
                 ctx.violation('differs_from_serial', site, 'design %d/%d state %s, serial %s' % (k, j, x.state, y.state))
             elif list(x.costs) != list(y.costs):
                 ctx.violation('differs_from_serial', site, 'design %d/%d vector %r costs %r, serial %r'
